@@ -180,7 +180,7 @@ class C17(Check):
             "older authorization with 0 or 2 signatures / garbage), key, manual, eth "
             "through main(); authorize_signer through adm_ledger.main() against threshold devices "
             "(k = 1..n, never), every fault kind at every exchange of the authorization dialogue, "
-            "and a genuine N-of-M device.  Distinct = (route, input classes, verdict, device log shape).")
+            "and a genuine N-of-M device; every route also with -v/--verbose.  Distinct = (route, input classes, verdict, device log shape).")
     assumptions = [
         "hash and key byte values are seeded, not enumerated; the structure of the menus is fixed",
         "the UI device is a model read off firmware/src/ledger/ui/src/signer_authorization.c; the "
@@ -717,7 +717,8 @@ class C17(Check):
                 return None
             w.inject = inject
         r = opstub.run_main(self.adm_ledger.main,
-                            ["adm_ledger.py", "authorize_signer", "-z", path, "-p", PIN],
+                            ["adm_ledger.py", "authorize_signer", "-z", path, "-p", PIN] +
+                            (["-v", "-e"] if a.verbose else []),
                             patches=self.seams(w))
         sent = [e for e in w.exchanges() if len(e[2]) > 1 and e[2][0] == 0x80 and e[2][1] == 0x51]
         log = [e[2] for e in sent]
@@ -808,6 +809,8 @@ class C17(Check):
             doc = self.auth_doc(n % 4, it, list(range(n)))
             for k in range(1, n + 2):
                 self.x_dev(Args(doc=doc, policy={"kind": "threshold", "k": k}), stats, vs)
+                if it == 255:
+                    self.x_dev(Args(doc=doc, policy={"kind": "threshold", "k": k}, verbose=True), stats, vs)
         # malformed files never reach the device
         if n >= 1:
             for kd in MALFORMED:
@@ -851,7 +854,8 @@ class C17(Check):
                  [auth[0]] * thr, auth + outsider]
         for it in (1, 65535):
             for seq in seqs:
-                self.x_dev(Args(doc=self.auth_doc(m % 4, it, seq), policy=pol), stats, vs)
+                self.x_dev(Args(doc=self.auth_doc(m % 4, it, seq), policy=pol, verbose=it == 65535),
+                           stats, vs)
         # signatures over another digest (other iteration / little-endian confusion) do not count
         h = self.hashes[m % 4]
         doc = self.auth_doc(m % 4, 258, auth[:thr])
@@ -915,7 +919,8 @@ class C17(Check):
     # =========================================================================
     # route signapp: the authorization generator through main()
     # =========================================================================
-    def run_signapp(self, argv, world=None, stream="c17-urandom"):
+    def run_signapp(self, argv, world=None, stream="c17-urandom", verbose=False):
+        argv = list(argv) + (["-v"] if verbose else [])
         patches = opstub.seam_urandom(opstub.ByteStream(stream))
         if world is not None:
             patches += self.seams(world)
@@ -944,7 +949,7 @@ class C17(Check):
         before = self.td.read("out.json")
         if a.out:
             argv += ["-o", outp]
-        r = self.run_signapp(argv)
+        r = self.run_signapp(argv, verbose=bool(a.verbose))
         args = dict(a)
         saved = self.td.read("out.json")
         stats.observe(("signapp-message", a.iname, bool(a.out), a.pre, r.code, saved is not None,
@@ -1014,6 +1019,8 @@ class C17(Check):
                 for pre in (None, "old0", "old2", "garbage"):
                     self.x_signapp_message(Args(app=app, iter=ival, iname=iname, out=out, pre=pre),
                                            stats, vs)
+                self.x_signapp_message(Args(app=app, iter=ival, iname=iname, out=out, pre=None,
+                                            verbose=True), stats, vs)
         if case["it"] == 0:
             # missing arguments
             for argv in (["message"], ["message", "-i", "1"], ["message", "-a", self.td.file("nope.hex"),
@@ -1058,7 +1065,7 @@ class C17(Check):
             elif j % 2 == 0:
                 # later calls: app/iteration given again are ignored in favour of the file
                 argv += ["-a", self.td.write("other.hex", self.app_text[1 - a.app]), "-i", "9"]
-            r = self.run_signapp(argv, stream="c17-k%d-%d" % (ki, j))
+            r = self.run_signapp(argv, stream="c17-k%d-%d" % (ki, j), verbose=bool(a.verbose))
             try:
                 d = json.loads(self.td.read("auth.json") or "null")
             except Exception:   # noqa
@@ -1102,7 +1109,8 @@ class C17(Check):
         its = ["1", "65535", "0x100", "0"] if m else ["0", "65535"]
         for app in (0, 1):
             for it in its:
-                self.x_signapp_key(Args(app=app, iter=it, keys=list(range(m))), stats, vs)
+                self.x_signapp_key(Args(app=app, iter=it, keys=list(range(m)), verbose=it == "65535"),
+                                   stats, vs)
         if m == 3:
             self.x_signapp_key(Args(app=0, iter="77", keys=[2, 0, 1]), stats, vs)
             self.x_signapp_key(Args(app=0, iter="77", keys=[4, 4, 5]), stats, vs)
@@ -1115,7 +1123,7 @@ class C17(Check):
         if os.path.exists(outp):
             os.unlink(outp)
         argv = ["key", "-o", outp, "-a", app, "-i", "3"] + (["-k", a.key] if a.key is not None else [])
-        r = self.run_signapp(argv)
+        r = self.run_signapp(argv, verbose=bool(a.verbose))
         saved = self.td.read("auth.json")
         stats.observe(("signapp-keyform", a.kname, r.code, saved is not None))
         args = dict(a)
@@ -1159,7 +1167,7 @@ class C17(Check):
         before = self.td.read("auth.json")
         sig = corrupt(self.sig_by(a.nsig, h, it), a.skind) if a.skind != "absent" else None
         argv = ["manual", "-o", outp] + (["-g", sig] if a.skind != "absent" else [])
-        r = self.run_signapp(argv)
+        r = self.run_signapp(argv, verbose=bool(a.verbose))
         after = self.td.read("auth.json")
         args = dict(a)
         stats.observe(("signapp-manual", a.nsig, a.skind, r.code, after == before))
@@ -1186,7 +1194,7 @@ class C17(Check):
     def case_signapp_manual(self, case, stats, vs):
         for nsig in range(0, 4):
             for kd in ["valid"] + MALFORMED + ["empty", "nonhex", "inttag", "seqlen", "absent"]:
-                self.x_signapp_manual(Args(nsig=nsig, skind=kd), stats, vs)
+                self.x_signapp_manual(Args(nsig=nsig, skind=kd, verbose=nsig % 2 == 1), stats, vs)
         # manual on an absent / malformed file
         for name, content in (("absent", None), ("malformed", "{}")):
             stats.evaluations += 1
@@ -1241,7 +1249,7 @@ class C17(Check):
             argv += ["-b"]
         else:
             argv += ["-a", app, "-i", a.iter]
-        r = self.run_signapp(argv, world=w)
+        r = self.run_signapp(argv, world=w, verbose=bool(a.verbose))
         after = self.td.read("auth.json")
         args = dict(a)
         apdus = w.apdus()
@@ -1293,13 +1301,13 @@ class C17(Check):
             for it in ("1", "65535", "0x1f", "0"):
                 for nsig in (0, 1, 3):
                     for path in (None, "m/44'/60'/0'/0/1", "m/44'/137'/0'/0/0"):
-                        self.x_signapp_eth(Args(app=app, iter=it, path=path, nsig=nsig, mode="ok"),
-                                           stats, vs)
+                        self.x_signapp_eth(Args(app=app, iter=it, path=path, nsig=nsig, mode="ok",
+                                                verbose=nsig == 1), stats, vs)
         for mode in ("pubkey", "wrongmsg", "wrongkey", "sw-pub", "sw-sign", "wrongapp", "locked"):
             for nsig in (0, 2):
                 for path in (None, "m/44'/60'/0'/0/1"):
-                    self.x_signapp_eth(Args(app=0, iter="12", path=path, nsig=nsig, mode=mode),
-                                       stats, vs)
+                    self.x_signapp_eth(Args(app=0, iter="12", path=path, nsig=nsig, mode=mode,
+                                            verbose=nsig == 2), stats, vs)
         # malformed iteration / path through the eth route
         for it in ("65536", "-1", "x"):
             stats.evaluations += 1
